@@ -69,6 +69,31 @@ CLAIMED = {
    text="Exhaustive over 2-3 keys (one colliding tag pair), 3-4 refreshes, day steps around 30 d / 90 d, one crash/restart, two write faults, corrupt tombstones (0.4-4.7M states); 160 (quick) to 2,700 (thorough) behaviours executed on the real AutoTA with all clauses evaluated at every quiescent point and after every reconstructed crash prefix; tombstones-before-state and temp+rename atomicity observed with inotify.",
    design_ref="2.3",
    note="Four recorded findings, all found first as TLC counter-examples and reproduced on the code (tag-keyed hold-down presence under a tag collision; unreadable tombstone store not failing closed; revocation forgotten after both writes failed; sole StateRevoked marker lost to state-file corruption). Two further RFC 5011 gaps (revoked-tag carry +129; revocation masked by an in-RRset tag collision) are reported as observations: sdns never accepts those revocations, so the statement is not engaged. The 1- and 89-day boundaries are sampled, not exhaustive; torn writes below rename(2) are out of scope."),
+ "C04": dict(
+   technique="TLA+ spec Lease.tla, answer half (SpecAnswer: admission with TTL floor/cap, RRSIG expiry, SOA minimum, ECS cap and delegation cut; message and wire hits; both alias chases; subtree cut and denial-proof entries; request-tree min-fold; prefetch pointer-CAS; purge; Tick) model-checked exhaustively with TLC (ServedLive, TTLShown, TTLMonotone, ComposedMin, LateWriteLoses); TLC-simulated behaviours replayed call by call on the real Cache.ServeDNS / Store with an overlay timestamp shifter as the clock, and the recorded runs validated by TLC against Trace_Lease.tla with the property predicates evaluated on the observed replies",
+   text="TLC exhausts the answer-lifetime model (two configs: exact entries with chases/prefetch CAS/purge; subtree cuts and denial proofs) and 1,500 (quick) simulated histories per run are executed on the real cache on three routes (message-born, byte path, wire-born): every reply's TTL fields are compared with the driver's own earliest-permissible-expiry oracle, composed replies with the min over their pieces, re-cached compositions with the request-tree fold, and the late ReplaceIfCurrent race in TLC-chosen call order.",
+   design_ref="2.2",
+   note="API tier only: lifetimes enter through the exported Store/Cache surface and a scripted downstream handler, not through a live resolver (the lease half of the same module is bound to the full pipeline in C08); the clock moves only between completed operations (timestamp shifter), so in-flight wall-clock effects are not explored; DNS64 composition is bound in C20."),
+ "C08": dict(
+   technique="TLA+ specs Lease.tla, delegation half (SpecDeleg: parent-side truth with withdraw/re-point/re-time, referral observation, lease insertion with min over NS/DS TTL, ancestors and the 12 h ceiling, cached descent, provisional NS-lookup entries, self-referrals) and LeasePipe.tla (root -> p -> c tree with client query bursts; two model mutants must violate FollowsParent) model-checked with TLC (LeaseWithinGrant, NoSelfExtension, FollowsParent); simulated behaviours replayed step by step on the real authority.Cache + the resolver's own lease helpers under two virtual-clock mechanisms and validated by Trace_Lease.tla; LeasePipe scenarios played in real time by scripted parent/child authoritative servers against the real edns+cache+resolver pipeline",
+   text="Exhaustive over the bounded delegation tree (TTL classes incl. values above the 12 h ceiling, every point of parent withdrawal / re-pointing); 1,200 API-tier behaviours per quick run with the invariants evaluated on the observed deadlines, plus 28 (quick) real-time pipeline scenarios whose oracle uses only the referral log the scripted parent actually served and the delegation version encoded in every served record: nothing learned through a withdrawn delegation is served once the lease granted before the withdrawal has ended.",
+   design_ref="2.2",
+   note="Pipeline scenarios run in wall-clock seconds with 1-3 s TTLs, so lease ends are judged with the measured resolution latency as tolerance on the granted side only; validation-latency re-anchoring is sampled with real delays rather than enumerated; the 12 h ceiling is exercised at the API tier only."),
+ "C10": dict(
+   technique="TLA+ specs UdpJob.tla (the owned UDP engine, one action per ownership step: portable and batch readers, inline pass, handoff and replay, worker bursts, overflow goroutines, flushTX; UdpSlab.tla is the per-slab step shared with the trace spec) and TcpConn.tla (pipelined frames, job class swap, staged frames and flush) model-checked exhaustively with TLC (SingleOwner, ReplyIsOwn, SilentStaysSilent, AtMostOneSend, ReleaseOnce, LeaseBound, QuiescedIff; four regression configs with the scrub / rawSA reset / staged-is-terminal / flush-wait rules switched off must each fail); the real server.Server is driven on loopback UDP/TCP/DoH/DoH3/DoQ sockets by concurrent clients that check byte provenance of everything they receive, and the ownership walk recorded through the verif trace hook is validated line by line by TLC against Trace_UdpJob.tla / Trace_TcpConn.tla with the invariants evaluated at every event",
+   text="Every interleaving of 2-3 clients' packets (hit, miss, malformed, QR, bad opcode/counts, panic, ignored, write-then-handoff) over 3-4 slabs, tiny queues and caps is explored in the model; on the real engines (batch, mixed fallback, portable; workers 1-2, queue 1) about 17,000 recorded ownership events per quick run are explained by the spec with ReplyIsOwn evaluated at each send, every datagram/frame a client receives must carry its own id, question and rdata = f(question), silent kinds must stay silent, and all slabs must come home.",
+   design_ref="2.5",
+   note="The kernel's recvmmsg/sendmmsg ordering and loopback delivery are trusted; release() and serveInline's transition+count are single steps in the model; secure legs run under a self-generated certificate and a leg whose listener does not come up offline (DoT in this sandbox) is reported as skipped in the evidence, never faked."),
+ "C11": dict(
+   technique="TLA+ specs Dedup.tla (Cache.ServeDNS dedup loop over the real internal/waitgroup API with the written-once writer: join, wait, recheck, regroup, lead downstream, done-generation, deadlines and cancellation) and UpFault.tla (per-server fault scripts over a two-server zone) model-checked with TLC (AtMostOneReply, OneLeaderPerGeneration, FollowersNeverDone, FailureIsPrivate; liveness under weak fairness; bounded time with an urgent clock; a writer-guard-off config must fail); TLC behaviours replayed call by call on the real WaitGroup, forced as gated goroutine schedules on the real Cache.ServeDNS with the recorded executions validated against Trace_Dedup.tla, and sampled fault scripts played by scripted authorities against the real full pipeline on real UDP+TCP sockets",
+   text="All 10^4 two-server fault scripts (drop, delay past the timeout, TC then TCP stall/reset, wrong id, wrong question, garbage, SERVFAIL/REFUSED) are checked on the abstract resolver and 200 (quick) to 5,000 (thorough) of them are played for real with duplicate and distinct queries in flight and disconnecting clients: exactly one reply, own id/question, truth or SERVFAIL, within querytimeout + margin; afterwards the server is quiesced, slabs and limiter slots are home, goroutines are back and a full wave of honest queries resolves. The dedup tier executes every sampled TLC schedule on real goroutines: one reply per client, a leader's local failure reaches only its own client, one downstream call per generation.",
+   design_ref="2.5",
+   note="Timing oracle = querytimeout 2 s + 1.5 s margin (generous so that a loaded machine cannot flake); gate-to-gate bursts of one goroutine are not interleaved on the real code; an unanswered UDP query counts only if the engine trace hook shows the engine read it and released its slab without a send."),
+ "C12": dict(
+   technique="TLA+ specs Ledger.tla (RecursionWorkLedger with every atomic one action: CAS debit as load/compare-and-swap, local checks, first-rejection latch, retain/release/finish and the lazy owner pin, per mode off/shadow/enforce) and ResolveWork.tla (an abstract resolver over adversarial dependency topologies chosen at Init: CNAME/DNAME/NS-address/referral cycles, fan-out, depth, with the code's caps as guards) model-checked exhaustively with TLC (AcceptedNeverExceedsCap, ShadowNeverRejects, FirstRejectionLatched, PublishOnce; Terminates with a decreasing measure, WithinBudget, OverBudgetIsPrivate, ShadowEqualsOff; four mutant configs must fail); TLC call orders replayed on the real ledger, concurrent stress histories validated against Trace_Ledger.tla, and every sampled topology concretised into scripted authoritative servers that count the packets each client query costs the real full pipeline",
+   text="Three concurrent debitors on a cap-1 counter and the pin/retain/release lifecycle are exhausted per mode; every topology of the bound (N<=3 exhaustive, N=4 cycle family) is an Init choice and a seeded stratified subset (40 quick, 1,500 thorough) runs through the real default chain in modes off / shadow / enforce with budgets down to 1 and qname-minimisation on and off: upstream packets received <= budget in enforce mode, reply is an answer or SERVFAIL (+EDE) within the deadline, an over-budget SERVFAIL is not served to a second client, shadow replies equal firewall-off replies; DNSSEC decorations (many DNSKEYs, same-tag keys, many RRSIGs, high-iteration NSEC3) ride on small topologies.",
+   design_ref="2.6",
+   note="Budgets are measured where they matter (datagrams/connections the scripted servers received per client query); topologies beyond 4 nodes are reached only through the unbounded-depth referral generator; DNSSEC operation counts are read from the ledger's own counters (the servers cannot observe them)."),
 }
 
 NOT_YET = {}
